@@ -22,8 +22,8 @@ Get(h, k) == IF k \in DOMAIN h THEN h[k] ELSE <<>>
 TokenSet(h, k) == UNION { Range(line) : line \in Range(Get(h, k)) }
 AUTH == "authorization"
 
-VARIABLES l, sem, pats, bad, known, block, failStatus, stats
-vars == <<l, sem, pats, bad, known, block, failStatus, stats>>
+VARIABLES l, sem, pats, bad, known, block, failStatus, stats, pos
+vars == <<l, sem, pats, bad, known, block, failStatus, stats, pos>>
 
 Ev(e) == l <= Len(Trace) /\ Trace[l].ev = e /\ l' = l + 1
 
@@ -85,6 +85,23 @@ C16ok(e, fs) ==
          /\ (fs = 0 \/ e.resp.status = fs)
 
 (***************************************************************************)
+(* C09 (last sentence) - debug mode changes only the diagnostics attached  *)
+(* to failing preflights.  `off` and `on` are the same request served with *)
+(* debug off and on.  Reading (DESIGN.md): a failing preflight may get an  *)
+(* ok status and partial headers; a succeeding one may get the full        *)
+(* configured list in Access-Control-Allow-Headers instead of the          *)
+(* reflected one; nothing else may differ, on no other request.            *)
+(***************************************************************************)
+Same(off, on) == off.resp.status = on.resp.status /\ off.final = on.final /\ off.invoked = on.invoked /\ off.body = on.body
+C09ok(off, on) ==
+  \/ Same(off, on)
+  \/ /\ IsPreflightReq(on) /\ off.m = on.m /\ off.req = on.req
+     /\ \/ ~Succeeds(off) /\ DOMAIN off.resp.hdrs \subseteq {"Vary"}
+        \/ /\ Succeeds(off) /\ Succeeds(on) /\ off.resp.status = on.resp.status
+           /\ [k \in DOMAIN off.resp.hdrs \ {"ACAH"} |-> off.resp.hdrs[k]] = [k \in DOMAIN on.resp.hdrs \ {"ACAH"} |-> on.resp.hdrs[k]]
+           /\ TokenSet(on.resp.hdrs, "ACAH") = Range(sem.hNames) /\ Len(Get(on.resp.hdrs, "ACAH")) = 1
+
+(***************************************************************************)
 (* C11 - preflights are answered by the middleware alone; everything else  *)
 (* passes intact.                                                          *)
 (***************************************************************************)
@@ -126,14 +143,17 @@ C10preserved(e) == IsPrefix(Get(e.pre, "vary"), Get(e.final, "vary"))
 (***************************************************************************)
 Config == /\ Ev("Config")
           /\ sem' = Trace[l].sem /\ pats' = PatsOf(Trace[l].sem)
-          /\ UNCHANGED <<bad, known, block, failStatus, stats>>
-Rejected == Ev("Rejected") /\ UNCHANGED <<sem, pats, bad, known, block, failStatus, stats>>
-Panic == Ev("Panic") /\ UNCHANGED <<sem, pats, bad, known, block, failStatus, stats>>   \* C17's business
-BlockStart == Ev("Block") /\ block' = <<>> /\ failStatus' = 0 /\ UNCHANGED <<sem, pats, bad, known, stats>>
+          /\ UNCHANGED <<bad, known, block, failStatus, stats, pos>>
+Rejected == Ev("Rejected") /\ UNCHANGED <<sem, pats, bad, known, block, failStatus, stats, pos>>
+Panic == Ev("Panic") /\ UNCHANGED <<sem, pats, bad, known, block, failStatus, stats, pos>>   \* C17's business
+BlockStart == /\ Ev("Block")
+              /\ block' = IF Prop = "C09" /\ Trace[l].dbg THEN block ELSE <<>>   \* C09: the debug-on block is compared
+              /\ pos' = 1                                                         \* position by position with the debug-off one
+              /\ failStatus' = 0 /\ UNCHANGED <<sem, pats, bad, known, stats>>
 BlockEnd == /\ Ev("EndBlock")
             /\ bad' = IF Prop = "C10" THEN bad \cup C10pairsBad(block) ELSE bad
-            /\ block' = <<>>
-            /\ UNCHANGED <<sem, pats, known, failStatus, stats>>
+            /\ block' = IF Prop = "C09" THEN block ELSE <<>>
+            /\ UNCHANGED <<sem, pats, known, failStatus, stats, pos>>
 
 Serve ==
   /\ Ev("Serve")
@@ -155,15 +175,22 @@ Serve ==
             /\ stats' = [stats EXCEPT !.a = @ + (IF e.invoked = 0 THEN 1 ELSE 0),
                                       !.b = @ + (IF e.invoked = 1 THEN 1 ELSE 0)]
             /\ UNCHANGED <<block, failStatus, known>>
+       [] Prop = "C09" ->
+            /\ bad' = IF e.dbg /\ (pos > Len(block) \/ ~C09ok(block[pos], e)) THEN bad \cup {l} ELSE bad
+            /\ block' = IF e.dbg THEN block ELSE Append(block, e)
+            /\ stats' = [stats EXCEPT !.a = @ + (IF e.dbg /\ pos <= Len(block) /\ block[pos].final # e.final THEN 1 ELSE 0),
+                                      !.b = @ + (IF e.dbg THEN 1 ELSE 0)]
+            /\ UNCHANGED <<failStatus, known>>
        [] Prop = "C10" ->
             /\ bad' = IF C10preserved(e) THEN bad ELSE bad \cup {l}
             /\ block' = Append(block, Summary(e, l))
             /\ stats' = [stats EXCEPT !.a = @ + 1, !.b = @ + Len(block)]      \* b = ordered pairs / 2
             /\ UNCHANGED <<failStatus, known>>
   /\ UNCHANGED <<sem, pats>>
+  /\ pos' = IF Prop = "C09" /\ Trace[l].dbg THEN pos + 1 ELSE pos
 
 Init == l = 1 /\ sem = [pass |-> TRUE] /\ pats = {} /\ bad = {} /\ known = {} /\ block = <<>> /\ failStatus = 0
-        /\ stats = [a |-> 0, b |-> 0]
+        /\ stats = [a |-> 0, b |-> 0] /\ pos = 1
 Next == Config \/ Rejected \/ Panic \/ BlockStart \/ BlockEnd \/ Serve
 Spec == Init /\ [][Next]_vars
 
